@@ -114,7 +114,8 @@ func (c *ctxt) oneToOne(bj *bij, keyNo map[string]int) {
 		}
 		r.Count("o2o.symmetric")
 		// other pairs derive something else (ids, roots and — when they can derive any — keys)
-		for name, alt := range map[string][2]crypto.PrivKey{"a-x": {a, x}, "x-b": {x, b}, "a-a": {a, a}} {
+		for _, name := range sortedKeys(map[string][2]crypto.PrivKey{"a-x": {a, x}, "x-b": {x, b}, "a-a": {a, a}}) {
+			alt := (map[string][2]crypto.PrivKey{"a-x": {a, x}, "x-b": {x, b}, "a-a": {a, a}})[name]
 			po, err := o2oPayload(alt[0], alt[1].GetPublic(), ty)
 			if err != nil {
 				r.Count("o2o.other-pair.error")
@@ -189,6 +190,8 @@ func Run(r *corr.Run) {
 			c.byteFlips(s)
 			c.idMutations(s)
 			c.fieldMutations(s)
+			c.intraSwaps(s)
+			c.reissued(s, other)
 			c.signatureSwaps(s, same)
 			c.crossSplices(s, same)
 			c.crossSplices(s, other)
